@@ -27,7 +27,7 @@ ASSUMPTIONS = ["a re-registration on the same token starts a new registration (i
                "retransmitted copies of an earlier notification (same message ID) are not 'new' notifications",
                "'a notification rendered at or after the last change is eventually sent' is judged at quiescence for "
                "registrations still alive, on what the server transmitted (not on what the lossy network delivered)"]
-EXPECTED_PROBES = ["change_during_render", "coalesced_burst", "change_while_in_flight", "end_by_rst", "end_by_new_request", "end_by_deregister",
+EXPECTED_PROBES = ["error_notification_superseded_by_change", "change_during_render", "coalesced_burst", "change_while_in_flight", "end_by_rst", "end_by_new_request", "end_by_deregister",
                    "end_by_timeout", "end_by_icmp", "end_by_senderr", "end_by_error_notification", "end_by_last_notification", "end_by_shutdown",
                    "non_registration", "several_observers", "rst_on_non_notification", "observers_share_a_host", "sendmsg_failed", "end_event_during_render", "explicit_notification", "own_observation_under_observers_token", "partition", "change_in_the_iteration_of_an_end", "resource_breaks", "notification_never_acknowledged"]
 
